@@ -144,3 +144,25 @@ func HarnessC02StreamError() {
 	check(tr.rec.status == 200, "streaming responses are HTTP 200")
 	_ = stream.Close()
 }
+
+// HarnessC02CodedErrorWrappingContext: a handler error that carries its own
+// code but whose cause wraps a context sentinel keeps its code, message and
+// metadata (only uncoded context errors are classified by the library).
+//
+//verif:harness property=C02 stubs=json,wire shard=proto:3
+func HarnessC02CodedErrorWrappingContext() {
+	proto := nondetChoice("proto", 3)
+	code := Code(nondetUint32("code"))
+	assume(code >= 1 && code <= 16)
+	cause := context.Canceled
+	if nondetBool("deadline") {
+		cause = context.DeadlineExceeded
+	}
+	e := NewError(code, &c15URLError{cause})
+	e.Meta().Set("X-Err-Meta", "m3")
+	_, err := c02UnaryCall(proto, e)
+	if err == nil {
+		return
+	}
+	c02CheckError(err, code, e.Message(), "X-Err-Meta", "m3")
+}
